@@ -41,6 +41,17 @@ Theorem C10_validated_reader_safe_partial : forall d, known d = false ->
   (forall c, In c (map fst all_checks) -> violates c d = false) -> reader_panics d = false.
 Proof. exact reader_safe. Qed.
 
+(* the reader step create_transport_costs on a supplied matrix with `errorCodes`: it fails (E0002 "invalid matrix index") exactly when
+   an entry that is not marked unreachable (code <= 0) lies beyond travelTimes or distances; otherwise both cost vectors have the
+   length of errorCodes; without errorCodes the data is taken as is.  The step has no panicking outcome in the model
+   (`.get(i).ok_or_else(..)?`); that, and the remaining E0002 conditions (run_transport), are validated by the correspondence. *)
+Theorem C10_matrix_step_spec : forall m,
+  (matrix_data m = None <-> exists ec, m_errors m = Some ec /\ no_data 0 ec (m_travel m) (m_dist m))
+  /\ (forall ec x y, m_errors m = Some ec -> matrix_data m = Some (x, y) ->
+        List.length x = List.length ec /\ List.length y = List.length ec)
+  /\ (m_errors m = None -> matrix_data m = Some (m_travel m, m_dist m)).
+Proof. exact matrix_step_spec_l. Qed.
+
 (* rule tables: every implemented rule is documented and vice versa, no rule is called twice, every defined rule is called,
    every rule function reports its own code *)
 Theorem C10_rule_table_complete :
